@@ -204,11 +204,13 @@ def main():
     def build_e():
         import numpy as np
         from pydap.model import BaseType, DatasetType
-        e = DatasetType("e", title="levels and corners")
-        e["t"] = BaseType("t", np.arange(12, dtype="<f4").reshape(3, 4), dims=("z", "x"), units="K",
+        # built with a dimensions table (as the NetCDF handler does): one dimension no variable uses, one used by u only
+        e = DatasetType("e", title="levels and corners", dimensions={"z": 3, "x": 4, "w": 2, "unused": 5})
+        e["t"] = BaseType("t", np.arange(12, dtype="<f4").reshape(3, 4), dims=("/z", "/x"), units="K",
                           corners=np.arange(8.0).reshape(2, 4), levels=np.linspace(0.0, 975.0, 40))
+        e["u"] = BaseType("u", np.arange(2, dtype="<i4"), dims=("/w",))
         return BaseHandler(e)
-    RE = ["/e.dmr", "/e.html", "/e.dds", "/e.das", "/e.dods?t[0:1][1:2]", "/e.ascii?t", "/e.dmr?t"]
+    RE = ["/e.dmr", "/e.html", "/e.dds", "/e.das", "/e.dods?t[0:1][1:2]", "/e.ascii?t", "/e.dmr?t", "/e.dmr?u", "/e.dds?u", "/e.das?u"]
     base_e = {u: fetch(build_e(), u) for u in RE}          # /e.dmr first: before this process has served any DAS of it
     baseline = Baseline()
     for u in REQUESTS:
@@ -343,6 +345,54 @@ def main():
             direct.append({"law": "the response of a freshly built application to a request is the same at the start and at the end of "
                                   "the run (nothing served in between is remembered outside the application)", "request": u})
             break
+    # ---- (3c) responses whose bodies are consumed in an interleaved way (a WSGI server takes a few blocks of one body, answers
+    # another request on the same application completely, then takes the rest): a file-backed handler and the in-memory one
+    import os as _os
+    import tempfile as _tf
+    from pydap.handlers.csv import CSVHandler
+
+    def start_body(app_, u):
+        from webob import Request as _R
+        st = []
+        it_ = iter(app_(_R.blank(u).environ, lambda s_, h_, e_=None: st.append(s_)))
+        return st, it_
+    tmpd = _tf.mkdtemp(prefix="verif_c13_")
+    try:
+        csv_path = _os.path.join(tmpd, "t.csv")
+        with open(csv_path, "w") as f_:
+            f_.write('"a","b","c"\n' + "".join('%d,%s,"s%d"\n' % (j, j * 0.5, j) for j in range(40)))
+        RC = ["/t.dods", "/t.dods?sequence.a", "/t.ascii?sequence&sequence.a>3", "/t.dds", "/t.dods?sequence[2:9]", "/t.ascii"]
+        kinds_ = [("csv", lambda: CSVHandler(csv_path), RC),
+                  ("memory", fresh_app, ["/d.dods?q", "/d.ascii?lz", "/d.dods?loc", "/d.dods?x", "/d.ascii?q&q.a>1", "/d.dods?lz.k"])]
+        for label_, mk_, reqs_ in kinds_:
+            base_c = {u: fetch(mk_(), u) for u in reqs_}
+            for trial in range(8 if T == "quick" else 60):
+                app_c = mk_()
+                ua, ub = rng.choice(reqs_), rng.choice(reqs_)
+                k_ = rng.choice([1, 2, 3, 5, 8, 16])
+                r.count(("interleaved-bodies", label_, ua, ub, k_))
+                try:
+                    st_a, it_a = start_body(app_c, ua)
+                    part = []
+                    for _ in range(k_):
+                        try:
+                            part.append(next(it_a))
+                        except StopIteration:
+                            break
+                    got_b = fetch(app_c, ub)
+                    part += list(it_a)
+                    body_a = b"".join(part)
+                except Exception as e:  # noqa
+                    body_a, got_b = "raised " + repr(e)[:200], None
+                if base_c[ua][0] == "200 OK" and (body_a != base_c[ua][2] or (got_b is not None and got_b != base_c[ub])):
+                    direct.append({"law": "a response is a function of the served dataset and the request alone, also when another request "
+                                          "is answered while its body is being read", "handler": label_, "first_request": ua,
+                                   "blocks_taken_before_the_other_request": k_, "other_request": ub,
+                                   "first_body": repr(body_a)[:200], "alone": repr(base_c[ua][2])[:200]})
+                    break
+    finally:
+        import shutil as _sh
+        _sh.rmtree(tmpd, ignore_errors=True)
     # ---- (4) the answer of a FRESH application does not depend on what this process has served meanwhile (state kept outside
     # the application object: module globals, caches, library-wide settings)
     for u in reversed(list(REQUESTS)):
